@@ -104,7 +104,6 @@ def run_cases(cases: list[dict], out_path: str, progress_path: str, per_case_tim
         for c in cases:
             prog.write(f"S {c['id']}\n")
             prog.flush()
-            os.fsync(prog.fileno())
             faulthandler.dump_traceback_later(per_case_timeout, exit=True)
             inputs = {n: {"dims": v["dims"], "entries": {tuple(k): float(x) for k, x in v["entries"]}}
                       for n, v in c["inputs"].items()}
